@@ -141,3 +141,5 @@ m("C14", ["R35"], EX, "    Some(match (a > 0, b > 0) {", "    Some(match (a > 0,
 m("C20", ["RD", "R54"], SE, "                    .ok_or_else(|| de::Error::invalid_length(1, &self))?;\n                TwoFloat::try_from((hi, lo)).map_err(|_| {\n                    de::Error::invalid_value(Unexpected::Float(lo), &\"non-overlapping low word\")\n                })", "                    .ok_or_else(|| de::Error::invalid_length(1, &self))?;\n                Ok(TwoFloat::try_from((hi, lo)).expect(\"non-overlapping low word\"))", "the sequence visitor panics on an overlapping pair instead of returning an error (explicit panics are left to RD by the form rules)")
 m("C16", ["R41"], TR, "    x + x * (x2 * polynomial!(x2, SIN_COEFFS))", "    x + x2 * (x2 * polynomial!(x2, SIN_COEFFS))", "re-ordered sine kernel multiplies the correction by x^2 instead of x", on="Z0-6")
 m("C16", ["R41"], TR, "    x + x * (x2 * polynomial!(x2, TAN_COEFFS))", "    x + x * polynomial!(x2, TAN_COEFFS)", "re-ordered tangent kernel loses the x^2 factor", on="Z0-6")
+m("C14", ["R35"], EX, "return x * f64::from_bits(1u64 << (y + 1074));", "return x * f64::from_bits(1u64 << (y + 1075));", "mul_pow2 subnormal branch scales by 2^(y+1) (the scaling rule evaluates the helper for every exponent with the word symbolic)")
+m("C14", ["R35"], EX, "return x * f64::from_bits(((y + 1023) as u64) << 52);", "return x * f64::from_bits(((y + 1022) as u64) << 52);", "mul_pow2 normal branch uses the wrong exponent bias")
